@@ -715,7 +715,7 @@ class VSerial:
     def feed(self, data: bytes):
         if not self.is_open:
             return                      # nothing can arrive on a closed port
-        S.emit("feed", data=bytes(data).hex())
+        S.emit("feed", data=bytes(data).hex(), **({"dev": self.tag} if getattr(self, "tag", None) else {}))
         self.inbox.extend(data)
 
     def inject_fault(self, exc):
